@@ -85,6 +85,7 @@ class HdrGen:
         self.big = big
         self.peer_encoding = peer_encoding
         self.counter = 0
+        self.head_bias = 0.0
 
     def _extras(self, as_bytes, trailers=False, max_frame=16384):
         rng = self.rng
@@ -125,7 +126,10 @@ class HdrGen:
             elif k == 12 and as_bytes and not self.peer_encoding:
                 out.append(('x-bin', bytes(rng.randrange(256) for _ in range(rng.randrange(1, 12))).strip() or b'\x80'))
             elif k == 13:
-                out.append(('x-utf8', 'café'))
+                out.append(rng.choice([('x-utf8', 'café'), (' Authorization ', 'Basic padded'), ('cookie ', 'sid=abc'),
+                                       ('  cookie', '   sid=abc         '), ('proxy-authorization\t', 'x'),
+                                       ('Connection ', 'close'), (' keep-alive', 'timeout=5'),
+                                       ('1', 'digit-name'), ('_', 'underscore'), ('2-1', 'v'), ('-', 'dash')]))
             elif k == 14 and rng.random() < self.big * 4:
                 size = rng.choice([max_frame - 40, max_frame - 6, max_frame, max_frame + 1, 2 * max_frame + 3, 20000])
                 size = max(1, min(size, 40000))
@@ -161,10 +165,12 @@ class HdrGen:
     def request(self, max_frame=16384, method=None, body_len=None):
         rng = self.rng
         as_bytes = rng.random() < 0.5
-        m = method or rng.choice(METHODS)
+        m = method or (('HEAD' if rng.random() < self.head_bias else None) or rng.choice(METHODS))
         auth = rng.choice(AUTHS)
         pseudo = [(':method', m), (':scheme', rng.choice(['https', 'http'])), (':path', rng.choice(PATHS))]
         hostmode = rng.choice(['authority', 'authority', 'host', 'both'])
+        if self.variety and rng.random() < self.variety * 0.04:
+            auth = ''           # present but empty (legal: RFC 7540 only asks for presence and agreement)
         if hostmode in ('authority', 'both'):
             pseudo.append((':authority', auth))
         rng.shuffle(pseudo)
@@ -231,6 +237,11 @@ class HdrGen:
             hl.insert(1, [other, v])
         elif k == 11:
             hl = []
+            if rng.random() < 0.7:
+                # :authority and host both present, disagreeing, one of them empty
+                a, h = rng.choice([('', 'evil.example'), ('example.com', ''), ('', ' '), ('a', 'b')])
+                hl = [[t(':method'), t('GET')], [t(':scheme'), t('https')], [t(':path'), t('/')], [t(':authority'), t(a)],
+                      [t('host'), t(h)]]
         elif k == 12:
             hl.append([t('x-late-invalid'), t('v')])
             hl.append([t(':method'), t('GET')])
@@ -327,6 +338,8 @@ class Gen:
             m.start(self.w)
         self.hg = {ep: HdrGen(rng, P['hdr_variety'], P['big_headers'],
                               cfg[World.peer(ep)]['header_encoding']) for ep in ('c', 's')}
+        for h_ in self.hg.values():
+            h_.head_bias = P.get('head_bias', 0.0)
         self.unacked = {'c': [], 's': []}
         self.stalled = {'c2s': 0, 's2c': 0}
         self.ping_ctr = 0
@@ -587,6 +600,8 @@ class Gen:
         sid = max(trk.hi_mine + 2, 1) if trk.hi_mine else 1
         if rng.random() < 0.05:
             sid += 2 * rng.randrange(1, 4)
+        elif rng.random() < self.P.get('top_ids', 0.01):
+            sid = max(sid, rng.choice([MAXID - 2, MAXID - 2, MAXID]))      # user-chosen ids at the very end of the id space
         if sid > MAXID:
             return
         lim = trk.peer.get(C.S_MAX_CONCURRENT_STREAMS)
@@ -602,7 +617,7 @@ class Gen:
         if rng.random() < self.P['cl'] or lie:
             body_len = 0 if (es and not lie) else rng.choice([0, 1, 10, 100])
         hs = self.hg[ep].request(self._max_frame(trk), method=method, body_len=body_len)
-        if rng.random() < 0.15:
+        if rng.random() < self.P.get('prio_open', 0.15):
             kw['pw'] = rng.choice([1, 16, 256, 17, 255])
             if rng.random() < 0.5:
                 kw['pd'] = rng.choice([0, 1, 3, sid - 2 if sid > 2 else 0, sid + 2])
@@ -746,6 +761,13 @@ class Gen:
         if self.rng.random() < 0.1:
             data = bytes(self.rng.randrange(256) for _ in range(8))
         self.call(ep, 'ping', data=data)
+        if self.rng.random() < self.P.get('ping_burst', 0.03):
+            # many PINGs queued back to back: the peer finds them in one receive_data call if the network allows
+            for i in range(self.rng.choice([2, 5, 63, 64, 65, 66, 130])):
+                self.ping_ctr += 1
+                s_ = self.call(ep, 'ping', data=(self.ping_ctr & 0xffffffff).to_bytes(4, 'big') + b'brst')
+                if s_ is None or not s_.ok:
+                    break
 
     def _op_ack(self, ep, e, trk, live):
         rng = self.rng
@@ -1052,7 +1074,8 @@ class Gen:
                 return
             self.call(ep, 'reset_stream', sid=sid, code=rng.choice([0, 8, 2 ** 32 - 1]))
         elif k == 4:
-            if not fsm_ok and (e.client or not (st is not None and not st.mine and st.state in ('open', 'hcR'))):
+            recursive = (not e.client and st is not None and st.mine and st.pushed and st.state in ('rsvL', 'hcR'))
+            if not fsm_ok and not recursive and (e.client or not (st is not None and not st.mine and st.state in ('open', 'hcR'))):
                 return
             promised = rng.choice([trk.hi_mine + 2, 2, 4, 3, MAXID - 1, trk.hi_mine, 0])
             hs = rng.choice([hg.request(mf), hg.invalid(max_frame=mf), hg.response(max_frame=mf)])
@@ -1140,7 +1163,8 @@ class Gen:
                 return
             if 'F-COMMIT-BEFORE-VALIDATE' in self.avoid and not fsm_ok:
                 return
-            self.call(ep, 'send_headers', sid=rng.choice(cands).sid, headers=hg.response(max_frame=mf), pw=16)
+            kw = rng.choice([{'pw': 16}, {'pd': 0}, {'pe': False}, {'pe': True}, {'pd': 3}, {'pw': 1, 'pd': 0, 'pe': False}])
+            self.call(ep, 'send_headers', sid=rng.choice(cands).sid, headers=hg.response(max_frame=mf), **kw)
         elif k == 15:
             self.call(ep, 'close_connection', code=rng.choice([0, 2 ** 32 - 1]), last=rng.choice([None, 0, MAXID])) \
                 if rng.random() < 0.1 else None
@@ -1212,12 +1236,12 @@ class Gen:
         self.upgrade_view_only = False
         if rng.random() < 0.7:
             d = {}
-            keys = [C.S_ENABLE_PUSH, C.S_MAX_CONCURRENT_STREAMS, C.S_ENABLE_CONNECT_PROTOCOL]
+            keys = [C.S_ENABLE_PUSH, C.S_MAX_CONCURRENT_STREAMS, C.S_ENABLE_CONNECT_PROTOCOL, C.S_INITIAL_WINDOW_SIZE]
             if rng.random() < self.P.get('upgrade_full_space', 0.0):
                 # whole valid space: only the settings view is judged, no continuation program
                 keys = list(SETTING_VALUES)
                 self.upgrade_view_only = True
-            for k in rng.sample(keys, rng.randrange(0, len(keys) + 1)):
+            for k in rng.sample(sorted(set(keys)), rng.randrange(0, len(set(keys)) + 1)):
                 vals = list(SETTING_VALUES[k])
                 if self.upgrade_view_only:
                     vals += {C.S_INITIAL_WINDOW_SIZE: [2 ** 31 - 1], C.S_MAX_FRAME_SIZE: [2 ** 24 - 1],
